@@ -105,3 +105,95 @@ package filtering
 //@ func filterToJSON(f FilterYAML) (fj filterJSON)
 //@   trusted
 //@   modifies nothing
+
+// ---- C06: custom rewrites: precedence, exceptions, only table addresses, visited set ----
+// Vocabulary taken from the property text: CNAME entries before address entries; inside a kind exact names before
+// wildcards; among wildcards the longer (more specific) pattern first.
+//@ define isCN(r *LegacyRewrite) bool = r.Type == 5
+//@ define isWild(p string) bool = len(p) > 1 && p[0] == '*' && p[1] == '.'
+//@ define hostMatches(e *LegacyRewrite, host string) bool = e.Domain == host || (isWild(e.Domain) && strings.HasSuffix(host, e.Domain[1:]))
+//@ define typeMatches(e *LegacyRewrite, qt uint16) bool = e.Type == 5 || ((qt == 1 || qt == 28) && (e.Type == qt || e.IP == netip.Addr{}))
+//@ define before(a *LegacyRewrite, b *LegacyRewrite) bool = (isCN(a) && !isCN(b)) || (isCN(a) == isCN(b) && ((!isWild(a.Domain) && isWild(b.Domain)) || (isWild(a.Domain) == isWild(b.Domain) && len(a.Domain) > len(b.Domain))))
+// mark(k) is always true; used as the instantiation pattern of "for every k there is an i" facts so that, together with
+// their "for every i there is a k" counterparts, they do not feed the solver's instantiation loop (such a fact is used
+// only at the index the goal names, which the verifier instantiates itself).
+//@ declare mark(k int) bool
+//@ axiom mark_true: forall k int :: {mark(k)} mark(k)
+//@ define sortedLR(x []*LegacyRewrite) bool = forall i int, j int :: 0 <= i && i < j && j < len(x) ==> !before(x[j], x[i])
+
+//@ func isWildcard(pat string) (r0 bool)
+//@   property C06
+//@   ensures r0 == isWild(pat)
+//@   modifies nothing
+//@ func matchDomainWildcard(host string, wildcard string) (ok bool)
+//@   property C06
+//@   ensures ok == (isWild(wildcard) && strings.HasSuffix(host, wildcard[1:]))
+//@   modifies nothing
+//@ func (rw *LegacyRewrite) matchesQType(qt uint16) (ok bool)
+//@   property C06
+//@   ensures ok == typeMatches(rw, qt)
+//@   modifies nothing
+// The comparator realises exactly the documented order (negative: rw first).
+//@ func (rw *LegacyRewrite) Compare(b *LegacyRewrite) (res int)
+//@   property C06
+//@   requires len(rw.Domain) <= 4294967296 && len(b.Domain) <= 4294967296
+//@   ensures first: res < 0 <==> before(rw, b)
+//@   ensures second: res > 0 <==> before(b, rw)
+//@   modifies nothing
+
+//@ func findRewrites(entries []*LegacyRewrite, host string, qtype uint16) (rewrites []*LegacyRewrite, matched bool)
+//@   property C06
+//@   requires forall k int :: {entries[k]} 0 <= k && k < len(entries) ==> entries[k] != nil
+//@   callsite slices.SortFunc(x, cmp) requires documented-order: cmp == funcval("(*LegacyRewrite).Compare")
+//@   ensures matched-def: matched <==> (exists k int :: 0 <= k && k < len(entries) && hostMatches(entries[k], host))
+//@   ensures members: forall i int :: {mark(i)} 0 <= i && i < len(rewrites) ==> (exists k int :: 0 <= k && k < len(entries) && rewrites[i] == entries[k] && hostMatches(entries[k], host) && typeMatches(entries[k], qtype))
+//@   ensures some: len(rewrites) > 0 ==> matched && (exists k int :: 0 <= k && k < len(entries) && hostMatches(entries[k], host) && typeMatches(entries[k], qtype))
+//@   ensures nonempty: (exists k int :: 0 <= k && k < len(entries) && hostMatches(entries[k], host) && typeMatches(entries[k], qtype)) ==> len(rewrites) > 0
+//@   ensures best-first: len(rewrites) > 0 ==> (forall k int :: {entries[k]} 0 <= k && k < len(entries) && hostMatches(entries[k], host) && typeMatches(entries[k], qtype) ==> !before(entries[k], rewrites[0]))
+//@   ensures exact-shadows-wildcard: len(rewrites) > 0 && !isWild(rewrites[0].Domain) ==> (forall i int :: {rewrites[i]} 0 <= i && i < len(rewrites) ==> !isWild(rewrites[i].Domain))
+//@   ensures one-wildcard: len(rewrites) > 0 && isWild(rewrites[0].Domain) ==> len(rewrites) == 1
+//@   modifies nothing
+//@   loop 1 invariant matched <==> (exists k int :: 0 <= k && k < #i && hostMatches(entries[k], host))
+//@   loop 1 invariant fresh(arrayOf(rewrites)) || (rewrites == nil && cap(rewrites) == 0)
+//@   loop 1 invariant len(entries) > 0 ==> arrayOf(rewrites) != arrayOf(entries)
+//@   loop 1 invariant forall k int :: {entries[k]} 0 <= k && k < len(entries) ==> entries[k] == old(entries[k])
+//@   loop 1 invariant forall i int :: {mark(i)} 0 <= i && i < len(rewrites) ==> (exists k int :: 0 <= k && k < #i && rewrites[i] == entries[k] && hostMatches(entries[k], host) && typeMatches(entries[k], qtype))
+//@   loop 1 invariant forall k int :: {mark(k)} 0 <= k && k < #i && hostMatches(entries[k], host) && typeMatches(entries[k], qtype) ==> (exists i int :: 0 <= i && i < len(rewrites) && rewrites[i] == entries[k])
+//@   loop 2 invariant forall m int :: {rewrites[m]} 0 <= m && m < #i ==> !isWild(rewrites[m].Domain)
+
+// Only addresses of the given entries, of the requested family, are appended; an "A"/"AAAA" entry means "ask upstream".
+//@ func setRewriteResult(res *Result, host string, rewrites []*LegacyRewrite, qtype uint16)
+//@   property C06
+//@   requires forall i int :: {rewrites[i]} 0 <= i && i < len(rewrites) ==> rewrites[i] != nil
+//@   ensures at-most: len(res.IPList) <= old(len(res.IPList)) + len(rewrites) && len(res.IPList) >= old(len(res.IPList))
+//@   ensures only-table-addresses: forall n int :: old(len(res.IPList)) <= n && n < len(res.IPList) ==> (exists k int :: 0 <= k && k < len(rewrites) && res.IPList[n] == old(rewrites[k].IP) && old(rewrites[k].Type) == qtype && res.IPList[n] != netip.Addr{})
+//@   ensures family: !(qtype == 1 || qtype == 28) ==> len(res.IPList) == old(len(res.IPList)) && res.Reason == old(res.Reason)
+//@   ensures reason: res.Reason == old(res.Reason) || res.Reason == 0
+//@   ensures reason-kept: len(rewrites) == 0 ==> res.Reason == old(res.Reason)
+//@   ensures res.CanonName == old(res.CanonName)
+//@   modifies res.Reason, res.IPList, elems(res.IPList)
+//@   loop 1 invariant len(res.IPList) <= old(len(res.IPList)) + #i
+//@   loop 1 invariant len(res.IPList) >= old(len(res.IPList)) && res.Reason == old(res.Reason) && res.CanonName == old(res.CanonName)
+//@   loop 1 invariant !(qtype == 1 || qtype == 28) ==> len(res.IPList) == old(len(res.IPList))
+//@   loop 1 invariant forall n int :: old(len(res.IPList)) <= n && n < len(res.IPList) ==> res.IPList[n] != netip.Addr{}
+//@   loop 1 invariant forall n int :: old(len(res.IPList)) <= n && n < len(res.IPList) ==> (exists k int :: 0 <= k && k < #i && res.IPList[n] == old(rewrites[k].IP) && old(rewrites[k].Type) == qtype && res.IPList[n] != netip.Addr{})
+
+// The CNAME chase: exceptions, visited set, final address selection.
+//@ define tableOK(d *DNSFilter) bool = forall k int :: {d.conf.Rewrites[k]} 0 <= k && k < len(d.conf.Rewrites) ==> d.conf.Rewrites[k] != nil
+//@ define matchedIn(d *DNSFilter, host string) bool = exists k int :: 0 <= k && k < len(d.conf.Rewrites) && hostMatches(d.conf.Rewrites[k], host)
+//@ define valueIn(d *DNSFilter, host string, qt uint16) bool = exists k int :: 0 <= k && k < len(d.conf.Rewrites) && hostMatches(d.conf.Rewrites[k], host) && typeMatches(d.conf.Rewrites[k], qt)
+//@ func (d *DNSFilter) processRewrites(host string, qtype uint16) (res Result)
+//@   property C06
+//@   requires tableOK(d)
+//@   requires !held(d.confMu) && !rheld(d.confMu)
+//@   callsite (*github.com/AdguardTeam/golibs/container.MapSet[T]).Add(set, v) requires never-revisit: !set.Has(v)
+//@   ensures not-in-table: !matchedIn(d, host) ==> res.Reason == NotFilteredNotFound && len(res.IPList) == 0 && res.CanonName == ""
+//@   ensures empty-answer: matchedIn(d, host) && !valueIn(d, host, qtype) ==> res.Reason == Rewritten && len(res.IPList) == 0 && res.CanonName == ""
+//@   ensures only-table-addresses: forall n int :: 0 <= n && n < len(res.IPList) ==> (exists k int :: 0 <= k && k < len(d.conf.Rewrites) && res.IPList[n] == d.conf.Rewrites[k].IP && d.conf.Rewrites[k].Type == qtype && res.IPList[n] != netip.Addr{} && (hostMatches(d.conf.Rewrites[k], res.CanonName) || hostMatches(d.conf.Rewrites[k], host)))
+//@   ensures outcome: res.Reason == NotFilteredNotFound || res.Reason == Rewritten
+//@   modifies epoch
+//@   loop 1 invariant res.Reason == Rewritten && len(res.IPList) == 0 && cap(res.IPList) == 0 && (res.CanonName == host || (res.CanonName == "" && host == origHost))
+//@   loop 1 invariant matched ==> (forall i int :: {mark(i)} 0 <= i && i < len(rewrites) ==> (exists k int :: 0 <= k && k < len(d.conf.Rewrites) && rewrites[i] == d.conf.Rewrites[k] && hostMatches(d.conf.Rewrites[k], host) && typeMatches(d.conf.Rewrites[k], qtype)))
+//@   loop 1 invariant (origHost == host ==> (matched <==> matchedIn(d, host)) && (valueIn(d, host, qtype) ==> len(rewrites) > 0))
+//@   loop 1 invariant len(rewrites) > 0 ==> matched && valueIn(d, host, qtype)
+//@   loop 1 invariant (res.CanonName == "" && host == origHost) || valueIn(d, origHost, qtype)
